@@ -87,6 +87,9 @@ public:
 
         for (auto& [key, value] : key_value_range)
         {
+            // An element inserted earlier in this range with a zero ttl has already expired.
+            do_prune(now);
+
             if (do_insert_update(key, std::move(value), expire_time, a))
             {
                 ++inserted;
